@@ -39,6 +39,7 @@ func runC04(c *Ctx) {
 	c04R2(c)
 	c04R3(c)
 	c04R4(c)
+	c04R5(c)
 }
 
 const (
@@ -893,6 +894,183 @@ func c04R4(c *Ctx) {
 	}
 }
 
+// ---------- R5: hook wrappers forward their own arguments ----------
+
+// c04ForwardsOwnArgs: in wrapper W every dynamic call of a function value with
+// W's own signature (the callback it wraps / chains to) receives W's own
+// parameters, position by position.  tolerate(call, i, arg) may accept another
+// argument (the root descriptor on the path where the node equals the root).
+func c04ForwardsOwnArgs(p *Prog, W *ssa.Function, fields map[*types.Var]bool, tolerate func(call ssa.CallInstruction, i int, arg ssa.Value) bool) (n int, bad string, pos token.Pos) {
+	// the callbacks being wrapped: values read from the option fields, directly or through a captured variable /
+	// a field of a state struct filled from them (a locally defined step such as selectPlatform is not one)
+	isPrev := func(v ssa.Value) bool {
+		isField := func(x ssa.Value) bool {
+			for fv := range fields {
+				if c01IsFieldValue(x, fv) {
+					return true
+				}
+			}
+			return false
+		}
+		rs := Roots(v)
+		if len(rs) == 0 {
+			return false
+		}
+		for _, r := range rs {
+			if isField(r) {
+				continue
+			}
+			srcs, ok := c01CarriedSources(p, r)
+			if !ok {
+				return false
+			}
+			for _, sv := range srcs {
+				okSrc := false
+				for _, r2 := range Roots(sv) {
+					if isField(r2) {
+						okSrc = true
+					}
+				}
+				if !okSrc {
+					return false
+				}
+			}
+		}
+		return true
+	}
+	check := func(call ssa.CallInstruction, args []ssa.Value, what string) {
+		off := len(W.Params) - len(args) // 1 when the wrapper is a method (receiver first)
+		if off < 0 || off > 1 {
+			return
+		}
+		n++
+		for i, a := range args {
+			if prm := c01ParamOf(a); prm != nil && prm == W.Params[i+off] {
+				continue
+			}
+			if tolerate != nil && tolerate(call, i, a) {
+				continue
+			}
+			if bad == "" {
+				bad = fmt.Sprintf("argument #%d of the wrapped callback (%s) is not the wrapper's own parameter %s", i, what, W.Params[i+off].Name())
+				pos = call.Pos()
+			}
+		}
+	}
+	for _, call := range Calls(W, func(string) bool { return true }) {
+		cc := call.Common()
+		if cc.IsInvoke() {
+			continue
+		}
+		if _, isB := cc.Value.(*ssa.Builtin); isB {
+			continue
+		}
+		if h := StaticCallee(call); h != nil {
+			// a nil-safe hook helper: runHook(ctx, hook, desc) -> hook(ctx, desc)
+			if !inModule(h) || len(h.Blocks) == 0 {
+				continue
+			}
+			for i, a := range cc.Args {
+				sig, isSig := a.Type().Underlying().(*types.Signature)
+				if !isSig || !types.Identical(sig, W.Signature) || !isPrev(a) || !c01HookHelper(h, i) {
+					continue
+				}
+				for _, inner := range Calls(h, func(string) bool { return true }) {
+					if inner.Common().IsInvoke() || inner.Common().Value != ssa.Value(h.Params[i]) {
+						continue
+					}
+					var eff []ssa.Value
+					okMap := true
+					for _, ia := range inner.Common().Args {
+						hp := c01ParamOf(ia)
+						idx := -1
+						for k, q := range h.Params {
+							if q == hp {
+								idx = k
+							}
+						}
+						if hp == nil || idx < 0 || idx >= len(cc.Args) {
+							okMap = false
+							break
+						}
+						eff = append(eff, cc.Args[idx])
+					}
+					if okMap {
+						check(call, eff, CalleeName(call))
+					}
+				}
+			}
+			continue
+		}
+		sig, ok := cc.Value.Type().Underlying().(*types.Signature)
+		if !ok || !types.Identical(sig, W.Signature) || !isPrev(cc.Value) {
+			continue
+		}
+		check(call, cc.Args, CalleeName(call))
+	}
+	return
+}
+
+func c04R5(c *Ctx) {
+	const R = "C04.R5.wrapper-forwards-own-arguments"
+	c.Expect(R, 3)
+	found := 0
+	fields := map[*types.Var]bool{}
+	for _, name := range []string{"PreCopy", "PostCopy", "OnCopySkipped", "OnMounted"} {
+		if fv := c01FieldOf(c.P, "", "CopyGraphOptions", name); fv != nil {
+			fields[fv] = true
+		}
+	}
+	for _, name := range []string{"PreCopy", "PostCopy", "OnCopySkipped", "OnMounted"} {
+		fv := c01FieldOf(c.P, "", "CopyGraphOptions", name)
+		if fv == nil {
+			c.LostAnchor(R, "~.CopyGraphOptions."+name)
+			continue
+		}
+		for _, F := range c.P.FuncsOfPkg("") {
+			for _, st := range c04FieldStores(F, fv) {
+				W, _ := c01FuncOfValue(st.Val)
+				if W == nil || len(W.Blocks) == 0 || !inModule(W) {
+					continue
+				}
+				// the root may stand in for the node on the path where content.Equal(node, root) holds
+				eqT, _, _ := CallTests(W, "~/content.Equal", nil)
+				tolerate := func(call ssa.CallInstruction, i int, arg ssa.Value) bool {
+					if !c01IsOCIDescriptor(arg.Type()) || len(eqT) == 0 || !MustPass(call.(ssa.Instruction), newCut().Edges(eqT...)) {
+						return false
+					}
+					for _, ec := range CallsTo(W, "~/content.Equal") {
+						for _, ea := range ec.Common().Args {
+							if c01SameStrip(ea, arg) {
+								return true
+							}
+							if sa, ok := c01CarriedSources(c.P, ea); ok {
+								if sb, ok2 := c01CarriedSources(c.P, arg); ok2 && len(sa) == 1 && len(sb) == 1 && sa[0] == sb[0] {
+									return true
+								}
+							}
+						}
+					}
+					return false
+				}
+				n, bad, pos := c04ForwardsOwnArgs(c.P, W, fields, tolerate)
+				if n == 0 {
+					continue // wraps nothing
+				}
+				found++
+				if bad == "" {
+					pos = W.Pos()
+				}
+				c.Check(R, c01OuterName(F)+"$"+name+"|forwards-own-arguments", pos, bad == "",
+					ifelse(bad == "", fmt.Sprintf("the %d callback call(s) in the wrapper receive the wrapper's own ctx and descriptor", n), bad+": the user's callback is told about another node than the one being handled (callback accounting per node is wrong)"))
+			}
+		}
+	}
+	if found == 0 {
+		c.LostAnchor(R, "callback wrappers installed into CopyGraphOptions.{PreCopy,PostCopy,OnCopySkipped,OnMounted}")
+	}
+}
+
 func instrLabelOr(in ssa.Instruction) string {
 	if in == nil {
 		return "-"
@@ -901,6 +1079,10 @@ func instrLabelOr(in ssa.Instruction) string {
 }
 
 var c04Mutants = []Mutant{
+	{Name: "skipped-hook-told-about-root", File: "copy.go",
+		Old: "\t\t\tif onCopySkipped != nil {\n\t\t\t\treturn onCopySkipped(ctx, desc)\n\t\t\t}\n\t\t\treturn nil", New: "\t\t\tif onCopySkipped != nil {\n\t\t\t\treturn onCopySkipped(ctx, root)\n\t\t\t}\n\t\t\treturn nil", Expect: "C04.R5.wrapper-forwards-own-arguments|~.prepareCopy$OnCopySkipped"},
+	{Name: "postcopy-hook-gets-background-ctx", File: "copy.go",
+		Old: "\t\t\tif postCopy != nil {\n\t\t\t\treturn postCopy(ctx, desc)\n\t\t\t}", New: "\t\t\tif postCopy != nil {\n\t\t\t\treturn postCopy(context.Background(), desc)\n\t\t\t}", Expect: "C04.R5.wrapper-forwards-own-arguments|~.prepareCopy$PostCopy"},
 	// --- the repository's own test suite stays green under these (verified in a scratch copy) ---
 	{Name: "onmounted-error-wrapped", File: "copy.go",
 		Old: "\t\t\t\tif err := opts.OnMounted(ctx, desc); err != nil {\n\t\t\t\t\treturn err\n\t\t\t\t}",
